@@ -1240,6 +1240,8 @@ impl<'a> Prog<'a> {
         }
         // (3) a saved snapshot file
         if with_file {
+            // (the scratch directory may have been swept by somebody else's clean-up on a shared machine)
+            let _ = std::fs::create_dir_all(self.scratch);
             let p = self.scratch.join(format!("snap-{:x}.bin", self.case_seed));
             match self.store.save_snapshot(&p) {
                 Ok(()) => match std::fs::read(&p) {
@@ -1565,6 +1567,7 @@ fn main() {
                 ("denied_share_permille", 300),
                 ("expired_ttl_decisive", args.by_tier(40, 800)),
                 ("at_rest_scans", args.by_tier(400, 8_000)),
+                ("snapshot_files_scanned", args.by_tier(100, 2_000)),
                 ("audit_records_checked", args.by_tier(10_000, 200_000)),
                 ("error_messages_checked", args.by_tier(1_500, 30_000)),
             ]
